@@ -223,9 +223,59 @@ func shapeChange(base string, loops int, unc []string) string {
 	for _, u := range strings.Split(bu, ",") {
 		have[u] = true
 	}
+	var fresh []string
 	for _, u := range unc {
 		if !have[u] {
-			return "new callee without a contract: " + u
+			fresh = append(fresh, u)
+		}
+	}
+	if len(fresh) > 0 {
+		return "new callee without a contract: " + strings.Join(fresh, ", ")
+	}
+	return ""
+}
+
+// newCallees extracts the callee names from a shapeChange reason ("" for a loop change).
+func newCallees(why string) []string {
+	const pre = "new callee without a contract: "
+	if !strings.HasPrefix(why, pre) {
+		return nil
+	}
+	return strings.Split(why[len(pre):], ", ")
+}
+
+// optimisticStatus re-encodes the function of obligation o with the given callees
+// treated as heap-neutral and solves the obligation of the same name ("" if absent).
+var optEncs = map[string]*fnEnc{}
+
+func optimisticStatus(eng *Engine, o *Obligation, callees []string, outDir string, timeout time.Duration) string {
+	key := o.Func + "|" + strings.Join(callees, ",")
+	enc, ok := optEncs[key]
+	if !ok {
+		eng.neutralExtra = map[string]bool{}
+		for _, c := range callees {
+			eng.neutralExtra[c] = true
+		}
+		var err error
+		enc, err = eng.EncodeFunc(o.Func)
+		eng.neutralExtra = nil
+		if err != nil {
+			enc = nil
+		}
+		optEncs[key] = enc
+	}
+	if enc == nil {
+		return ""
+	}
+	for _, o2 := range enc.obls {
+		if o2.Name == o.Name {
+			var r SolveResult
+			if len(o2.Cases) > 0 {
+				r = solveCases(o2, outDir, 3*timeout)
+			} else {
+				r = Solve(o2.Script(true), outDir, o2.Name+".optimistic", 3*timeout, nil)
+			}
+			return r.Status
 		}
 	}
 	return ""
@@ -428,9 +478,21 @@ func runCheck(id, tier string, seed int, repo string, overlay map[string][]byte,
 					counted-- // not part of the proof claim
 				}
 			case inBase && shaped:
-				// the anchoring of the contract moved (see shapeOf): only a reproduced
-				// counterexample is a violation
+				// the anchoring of the contract moved (see shapeOf). A new callee without a
+				// contract havocs the heap: the obligation is re-derived under the optimistic
+				// reading (the new callees change nothing, results unconstrained); if it fails
+				// there too, the havoc is not what broke it. Otherwise only a reproduced
+				// counterexample is a violation.
 				path, reproduced := writeReplay(id, o, r, eng, cfg)
+				if !reproduced && len(newCallees(why)) > 0 {
+					if st := optimisticStatus(eng, o, newCallees(why), outDir, timeout); st != "unsat" && st != "" {
+						why += "; fails as well when the new callees are taken to change nothing (" + st + ")"
+						rep.Verdict = "VIOLATION"
+						violations = append(violations, fmt.Sprintf("VIOLATION property=%s replay=%s no-failing-input-found", id, path))
+						fmt.Fprintf(w, "  (%s: %s)\n", o.Name, why)
+						break
+					}
+				}
 				if reproduced {
 					rep.Verdict = "VIOLATION"
 					violations = append(violations, fmt.Sprintf("VIOLATION property=%s replay=%s", id, path))
